@@ -421,7 +421,8 @@ func c32(c *engine.Ctx) {
 			// reachable only via the "saved" (true answer) edge, and every path from there to the next read passes it
 			okI = engine.PathExists(sSave, inc) && !(engine.PathQuery{Fn: small, From: inc, Barrier: func(i ssa.Instruction) bool { return i == ssa.Instruction(srf) }}).Reaches(inc)
 			saved := engine.EdgesWhere(small, savedEdge[sSave])
-			okI = okI && len(saved) == 1 && everyPathPasses(small, inc, saved, nil)
+			// (several edges may imply "saved": also one that is only reachable after it)
+			okI = okI && len(saved) >= 1 && everyPathPasses(small, inc, saved, nil)
 			for e := range saved {
 				if (engine.PathQuery{Fn: small, FromBlk: e[1], Barrier: func(i ssa.Instruction) bool { return i == inc.(ssa.Instruction) }}).Reaches(srf) {
 					okI = false
